@@ -165,7 +165,7 @@ fn main() {
         }
         "histwalk" => {
             let tier = if args[2] == "quick" { Tier::Quick } else { Tier::Thorough };
-            props::c11::histwalk_main(tier, &args[3]);
+            props::c11::histwalk_main(tier, &args[3], args.get(4).map(|s| s.as_str()).unwrap_or("small"));
         }
         "xdump" => {
             props::c20::xdump(&args[2]);
@@ -198,6 +198,18 @@ fn main() {
                 let violated = r.is_err() && msg.contains("/repo/");
                 println!("REPLAY violated={violated} :: library-panic :: {msg}");
                 std::process::exit(if violated { 1 } else { 0 });
+            }
+            if case["kind"] == "rerun-key" {
+                // Re-run the whole exploration of one property on ONE worker thread (a single deterministic
+                // call sequence, child stages included) and report whether the same finding comes back.
+                std::env::set_var("VERIF_THREADS", "1");
+                let tier = if case["tier"] == "quick" { Tier::Quick } else { Tier::Thorough };
+                let id = case["property"].as_str().unwrap().to_string();
+                let key = case["key"].as_str().unwrap();
+                let rep = run_prop(&id, tier).unwrap_or_else(|| usage());
+                let v = rep.acc.viols.values().find(|v| v.key == key);
+                println!("REPLAY violated={} :: {} :: {}", v.is_some(), key, v.map(|v| v.detail.clone()).unwrap_or_else(|| "the single-threaded re-run of the whole exploration does not show this finding".into()));
+                std::process::exit(if v.is_some() { 1 } else { 0 });
             }
             if case["kind"] == "range" {
                 // re-run a whole index range of a staged check in this process (expected to die)
